@@ -535,7 +535,13 @@ fn generate_texture_dummy_data(
         ),
     )))?;
 
-    let data = format.dummy_fill_color_bytes().repeat((width * height) as usize);
+    // (an embedded image stores its dimensions in 16 bits; refuse before building the data)
+    if width > u16::MAX as u32 || height > u16::MAX as u32 {
+        return Err(emitter.emit(error!(
+            "image dimensions {width}x{height} are too large for an embedded image (for image '{entry_path}')"
+        )));
+    }
+    let data = format.dummy_fill_color_bytes().repeat(width as usize * height as usize);
     Ok(data.into())
 }
 
